@@ -80,21 +80,17 @@ package routing
 //@ assigns mapof(bp.Constraints), bp.store.$qok
 //@ ensures has(bp.Constraints, Contraindicated)
 
-// What callers assume of PurgeConstraints (the map iteration visits every key - not provable without reasoning about
-// the cardinality of the iterated set; the rest is proved from the body below).
-// govc:trusted (*BundleDescriptor).PurgeConstraints
-//@ assigns mapof(descriptor.Constraints)
-//@ ensures forall k Constraint :: has(descriptor.Constraints, k) ==> k == LocalEndpoint && old(has(descriptor.Constraints, k))
-
-// Proved: purging adds nothing and never removes the local-endpoint constraint.
+// Purging leaves at most the local-endpoint constraint, adds nothing and never removes that constraint (the range
+// over the constraint map visits every key that stays in the map: model assumption for exhausted map iterators).
 // govc:func (*BundleDescriptor).PurgeConstraints property C07 C05
 //@ requires descriptor.Constraints != nil
 //@ ghost k Constraint
 //@ assigns mapof(descriptor.Constraints)
-//@ ensures has(descriptor.Constraints, k) ==> old(has(descriptor.Constraints, k))
+//@ ensures has(descriptor.Constraints, k) ==> k == LocalEndpoint && old(has(descriptor.Constraints, k))
 //@ ensures old(has(descriptor.Constraints, LocalEndpoint)) ==> has(descriptor.Constraints, LocalEndpoint)
 //@ loop 0 invariant has(descriptor.Constraints, k) ==> old(has(descriptor.Constraints, k))
 //@ loop 0 invariant old(has(descriptor.Constraints, LocalEndpoint)) ==> has(descriptor.Constraints, LocalEndpoint)
+//@ loop 0 invariant visited(descriptor.Constraints, k) && has(descriptor.Constraints, k) ==> k == LocalEndpoint
 
 // A delivery is reported and the retention constraints are released only after a hand-over took place; otherwise
 // the bundle is kept and marked for retry (contraindicated) and no delivered report is emitted.
